@@ -339,8 +339,23 @@ def r20_4(run):
     ps = rn.params()
     rr = ANF(ix, rn, param_alias=dict(zip(ps, ("multinet", "levelorder")))).run()
     st = [s_ for s_ in rr.stores() if s_.loops and base_of(s_.base)[0] == "new"]
-    ok = len(st) == 1 and st[0].value[0] == "bool" and st[0].value[1] == "or" and len(st[0].value[2]) == 2
-    detail = tshow(st[0].value)[:300] if st else None
+    # the verdict per member net: stored into a new dict inside the loop over the members, or the value of a dict comprehension
+    # over them that is returned
+    entry = [(s_.index[0], s_.value) for s_ in st]
+    if not entry:
+        for e_ in rr.returns():
+            v_ = e_.value
+            if v_[0] == "comp" and v_[1] == "DictComp" and v_[2][0] == "kv" and len(v_[3]) == 1 and not v_[3][0][2]:
+                entry.append((v_[2][1], v_[2][2]))
+    ok = len(entry) == 1 and entry[0][1][0] == "bool" and entry[0][1][1] == "or" and len(entry[0][1][2]) == 2
+    detail = tshow(entry[0][1])[:300] if entry else None
+
+    class _E:
+        pass
+    st = []
+    if entry:
+        st = [_E()]
+        st[0].index, st[0].value = (entry[0][0],), entry[0][1]
     if ok:
         K = st[0].index[0]
         lo = expect(ix, rn, "np.array(levelorder)")
@@ -357,7 +372,7 @@ def r20_4(run):
             ctrl = expect(ix, rn, "LO[LO[:, 1].__eq__(multinet), 0]", env={"LO": lo})
             ctrl2 = expect(ix, rn, "LO[LO[:, 1] == multinet, 0]", env={"LO": lo})
             ok_c = bool(mem) and bool(comps) and all(
-                c[2] == ("call", ("attr", ("b", 0), "get_all_net_names"), (), ()) and len(c[3]) == 1 and not c[3][0][2]
+                len(c[3]) == 1 and c[2] == ("call", ("attr", c[3][0][0], "get_all_net_names"), (), ()) and not c[3][0][2]
                 and tkey(c[3][0][1]) in (tkey(ctrl), tkey(ctrl2)) for c in comps)
             if bool(mem) and not comps:
                 # the same list grown in a loop: names = []; for ctrl in <multinet controllers of the level>: names.append(ctrl.get_all_net_names())
